@@ -370,6 +370,20 @@ func r18mode(c *core.Ctx) {
 	c.Rule(R, "GetMode: 1 iff len(args)==1, 2 iff len(args)==2 and the argument is \"-t\", 0 otherwise; main runs procedures only under mode 1 or 2, banners match")
 	fn := mustFunc(c, pStg, "GetMode")
 	p := core.NewPather(fn)
+	// the standard flag package accepts far more spellings than the documented one: a boolean flag
+	// t is set by -t, --t, -t=true, --t=1, -t=T …, and "--" ends the options; a decision delegated to
+	// it selects test mode for command lines other than exactly `-t`
+	for f := range staticReach(fn) {
+		if fnPkgPath(f) != pStg {
+			continue
+		}
+		for _, ci := range core.Calls(f) {
+			if n := core.CalleeName(ci.Common()); strings.HasPrefix(n, "flag.") {
+				c.Fail(R, "stgutg.GetMode:flag-grammar", ci.Pos(), "the mode is decided by package flag (%s): its grammar also accepts --t, -t=true, -t=1, a repeated -t and a trailing --, so test mode is selected by command lines other than exactly `-t` (and -t=false selects traffic mode)", n)
+				return
+			}
+		}
+	}
 	lenP := "call:builtin.len(p0)"
 	ev := func(in ssa.Instruction) string {
 		if r, ok := in.(*ssa.Return); ok && len(r.Results) == 1 {
